@@ -162,22 +162,42 @@ package parser
 //@   loop 1: decreases PD(p)
 //@ func (p *Parser) parseAssignStmt
 //@   decreases PD(p), 16
+//@   call parseExpression#0: assert rhs-complete: arg1 == LOWEST
 //@ func (p *Parser) parseExpressionStmt
 //@   decreases PD(p), 16
+//@   call parseExpression#0: assert complete: arg1 == LOWEST
 
 // ---- expressions ----
 
+// ---- C01: the precedence table equals the language's order, the Pratt loop consumes an
+// infix operator exactly when it binds tighter than the level it was called with, and
+// each operand is parsed at the fixed level that gives left associativity ----
+//@ spec terminator(t token.TokenType) bool = t == token.RBRACES || t == token.SEMI || t == token.RPAREN
+
 //@ func (p *Parser) parseExpression
 //@   decreases PD(p), 14
+//@   goal table.ternary: LOWEST < prec(token.QUESTION) && prec(token.QUESTION) == TERNARY && prec(token.QUESTION) < prec(token.EQ)
+//@   goal table.equality: prec(token.EQ) == prec(token.NOT_EQ) && prec(token.EQ) < prec(token.LTHAN)
+//@   goal table.comparison: prec(token.LTHAN) == prec(token.GTHAN) && prec(token.LTHAN) == prec(token.LTHAN_EQ) && prec(token.LTHAN) == prec(token.GTHAN_EQ) && prec(token.LTHAN) < prec(token.ADD)
+//@   goal table.additive: prec(token.ADD) == prec(token.SUB) && prec(token.ADD) < prec(token.MUL)
+//@   goal table.multiplicative: prec(token.MUL) == prec(token.DIV) && prec(token.MUL) == prec(token.MOD) && prec(token.MUL) < prec(token.DOT)
+//@   goal table.member-prefix-index-postfix: prec(token.DOT) < PREFIX && PREFIX < prec(token.LBRACKET) && prec(token.LBRACKET) < prec(token.INC) && prec(token.INC) == prec(token.DEC)
+//@   goal table.non-operators: prec(token.RBRACES) == LOWEST && prec(token.SEMI) == LOWEST && prec(token.RPAREN) == LOWEST && prec(token.COLON) == LOWEST && prec(token.COMMA) == LOWEST && prec(token.RBRACKET) == LOWEST && prec(token.RBRACE) == LOWEST && prec(token.ASSIGN) == LOWEST && prec(token.EOF) == LOWEST
+//@   goal munch: result == nil || terminator(p.peekToken.Type) || prec(p.peekToken.Type) <= precedence || p.infixParseFns[p.peekToken.Type].fn == 0
+//@   call nextToken#0: assert binds-tighter: !terminator(p.peekToken.Type) && precedence < prec(p.peekToken.Type)
 //@   loop 0: invariant ParInv(p) && PD(p) <= old(PD(p)) && len(p.errors) >= old(len(p.errors))
 //@   loop 0: invariant PD(p) == old(PD(p)) ==> p.curToken.Type == old(p.curToken.Type)
 //@   loop 0: decreases PD(p)
 
 //@ func (p *Parser) parsePrefixExp
 //@   requires p.curToken.Type != token.EOF
+//@   call parseExpression#0: assert operand-level: arg1 == PREFIX
 //@   decreases PD(p), 13
 //@ func (p *Parser) parseGroupedExpression
 //@   requires p.curToken.Type != token.EOF
+//@   call parseExpression#0: assert inner-level: arg1 == LOWEST
+//@   call parseExpression#0: bind inner
+//@   goal parens-leave-no-node: result != nil ==> result == inner
 //@   decreases PD(p), 13
 //@ func (p *Parser) parseArrayLiteral
 //@   requires p.curToken.Type != token.EOF
@@ -189,12 +209,23 @@ package parser
 //@   loop 0: decreases PD(p)
 //@ func (p *Parser) parseInfixExp
 //@   requires p.curToken.Type != token.EOF
+//@   call parseExpression#0: assert rhs-level: arg1 == prec(old(p.curToken.Type))
+//@   call parseExpression#0: bind rhs
+//@   goal node: result != nil ==> istype(result, *ast.InfixExp) && as(result, *ast.InfixExp).Left == left
+//@        && as(result, *ast.InfixExp).Operator == old(p.curToken.Literal) && as(result, *ast.InfixExp).Right == rhs
 //@   decreases PD(p), 13
 //@ func (p *Parser) parseTernaryExp
 //@   requires p.curToken.Type != token.EOF
+//@   call parseExpression#0: assert then-level: arg1 == TERNARY
+//@   call parseExpression#1: assert else-level: arg1 == LOWEST
+//@   call parseExpression#0: bind thenExp
+//@   call parseExpression#1: bind elseExp
+//@   goal node: result != nil ==> istype(result, *ast.TernaryExp) && as(result, *ast.TernaryExp).Condition == left
+//@        && as(result, *ast.TernaryExp).Consequence == thenExp && as(result, *ast.TernaryExp).Alternative == elseExp
 //@   decreases PD(p), 13
 //@ func (p *Parser) parseIndexExp
 //@   requires p.curToken.Type != token.EOF
+//@   call parseExpression#0: assert index-level: arg1 == LOWEST
 //@   decreases PD(p), 13
 //@ func (p *Parser) parsePostfixExp
 //@   decreases PD(p), 13
@@ -205,6 +236,8 @@ package parser
 //@   decreases PD(p), 12
 //@ func (p *Parser) parseExpressionList
 //@   requires p.curToken.Type != token.EOF && validTok(endTok) && endTok != token.EOF
+//@   call parseExpression#0: assert element-level: arg1 == LOWEST
+//@   call parseExpression#1: assert element-level: arg1 == LOWEST
 //@   decreases PD(p), 11
 //@   loop 0: invariant ParInv(p) && PD(p) < old(PD(p)) && len(p.errors) >= old(len(p.errors))
 //@   loop 0: decreases PD(p)
@@ -213,6 +246,8 @@ package parser
 //@   decreases PD(p), 2
 //@ func (p *Parser) parseIntegerLiteral
 //@   decreases PD(p), 2
+//@   goal out-of-range-is-error: result == nil ==> len(p.errors) == old(len(p.errors)) + 1
+//@   goal value: result != nil ==> istype(result, *ast.IntegerLiteral) && as(result, *ast.IntegerLiteral).Token == p.curToken
 //@ func (p *Parser) parseFloatLiteral
 //@   decreases PD(p), 2
 //@ func (p *Parser) parseStringLiteral
